@@ -902,3 +902,324 @@ Example lex_leading_ws_ex :
   lex ([sp; nl; tab; cr; nl; sp] ++ s" foo(a)") = lex (s" foo(a)") /\
   lex ([sp; nl] ++ s"foo(""a") = LexErr 6 /\ lex (s"foo(""a") = LexErr 4.
 Proof. repeat split; vm_compute; reflexivity. Qed.
+
+(* trailing layout is NOT invisible in general: a lone backslash is an error, but a
+   backslash followed by a space is an escape sequence *)
+Example lex_trailing_ws_refuted :
+  lex [bsl] = LexErr 0 /\ lex ([bsl] ++ [sp]) = LexOk [(TUnquoted, [bsl; sp])].
+Proof. split; vm_compute; reflexivity. Qed.
+
+(* ---- C1: an identifier followed by a delimiter is one TIdent piece ---- *)
+
+Lemma ident_char_unq (c : char) :
+  is_ident_char c = true -> (c =? 92)%N = false /\ is_unq_char c = true.
+Proof. intro H. split; char_side. Qed.
+
+Lemma ident_start_char (c : char) : is_ident_start c = true -> is_ident_char c = true.
+Proof. intro H. char_side. Qed.
+
+Lemma count_while_app_all (p : char -> bool) (l rest : str) :
+  forallb p l = true -> count_while p (l ++ rest) = length l + count_while p rest.
+Proof.
+  induction l as [|a l IH]; intro H; [reflexivity|].
+  cbn [forallb] in H. apply andb_true_iff in H. destruct H as [Ha Hl].
+  cbn [app]. rewrite count_while_cons, Ha, (IH Hl). reflexivity.
+Qed.
+
+Lemma unq_run_ident (l rest : str) :
+  forallb is_ident_char l = true -> unq_run (l ++ rest) = length l + unq_run rest.
+Proof.
+  induction l as [|a l IH]; intro H; [reflexivity|].
+  cbn [forallb] in H. apply andb_true_iff in H. destruct H as [Ha Hl].
+  destruct (ident_char_unq a Ha) as [H1 H2].
+  cbn [app]. rewrite unq_run_cons, H1, H2, (IH Hl). reflexivity.
+Qed.
+
+Lemma ident_delim_stops (rest : str) :
+  ident_delim rest = true -> count_while is_ident_char rest = 0 /\ unq_run rest = 0.
+Proof.
+  destruct rest as [|c r]; intro H; [split; reflexivity|].
+  cbn [ident_delim] in H. apply andb_true_iff in H. destruct H as [H H3].
+  apply andb_true_iff in H. destruct H as [H1 H2].
+  apply negb_true_iff in H1, H2, H3.
+  rewrite count_while_cons, unq_run_cons, H1, H2, H3. split; reflexivity.
+Qed.
+
+Lemma better_same (n : nat) : better (n, false) (n, false) = false.
+Proof. unfold better. cbn [fst snd]. rewrite Nat.ltb_irrefl, andb_false_r. reflexivity. Qed.
+
+Theorem best_ident_delim : forall a r rest,
+  is_ident_start a = true -> forallb is_ident_char r = true -> ident_delim rest = true ->
+  best ((a :: r) ++ rest) = Some (TIdent, length (a :: r)).
+Proof.
+  intros a r rest Ha Hr Hd. cbn [app length].
+  destruct (ident_delim_stops rest Hd) as [D1 D2].
+  assert (I : m_identifier (a :: r ++ rest) = Some (S (length r))).
+  { cbn [m_identifier]. rewrite Ha, (count_while_app_all _ _ _ Hr), D1, Nat.add_0_r. reflexivity. }
+  assert (U : m_unquoted (a :: r ++ rest) = Some (S (length r))).
+  { unfold m_unquoted. destruct (ident_char_unq a (ident_start_char a Ha)) as [H1 H2].
+    rewrite unq_run_cons, H1, H2, (unq_run_ident _ _ Hr), D2, Nat.add_0_r. reflexivity. }
+  rewrite best_results, I, U. kill_rules. cbn [pick noeof].
+  rewrite better_same. reflexivity.
+Qed.
+
+Example best_ident_delim_ex :
+  best (s"foo_1" ++ s"(x)") = Some (TIdent, 5) /\ ident_delim (s"(x)") = true.
+Proof. split; vm_compute; reflexivity. Qed.
+
+(* conversely, a TIdent piece is an identifier *)
+Lemma forallb_take_while (p : char -> bool) (x : str) : forallb p (take_while p x) = true.
+Proof.
+  induction x as [|a r IH]; [reflexivity|].
+  cbn [take_while]. destruct (p a) eqn:E; [|reflexivity]. cbn [forallb]. rewrite E, IH. reflexivity.
+Qed.
+
+Lemma firstn_count_while (p : char -> bool) (x : str) :
+  firstn (count_while p x) x = take_while p x.
+Proof.
+  induction x as [|a r IH]; [reflexivity|].
+  rewrite count_while_cons. cbn [take_while]. destruct (p a); [|reflexivity].
+  cbn [firstn]. rewrite IH. reflexivity.
+Qed.
+
+Lemma best_ident_shape (x : str) (n : nat) :
+  best x = Some (TIdent, n) ->
+  exists a r, firstn n x = a :: r /\ is_ident_start a = true /\ forallb is_ident_char r = true.
+Proof.
+  intro H. apply best_inv in H. destruct H as (m & e & Hin & Hm).
+  unfold rules in Hin. cbn [In] in Hin.
+  do 6 (destruct Hin as [Hin | Hin]; [discriminate Hin|]).
+  destruct Hin as [Hin | Hin].
+  - inversion Hin. subst m. apply noeof_inv in Hm.
+    destruct x as [|a t]; cbn [m_identifier] in Hm; [discriminate|].
+    destruct (is_ident_start a) eqn:Ha; [|discriminate]. inversion Hm. subst n.
+    exists a, (take_while is_ident_char t). cbn [firstn]. rewrite firstn_count_while.
+    split; [reflexivity | split; [exact Ha | apply forallb_take_while]].
+  - repeat (destruct Hin as [Hin | Hin]; [discriminate Hin|]). contradiction.
+Qed.
+
+(* ---- C2: concatenation at a stable boundary ---- *)
+
+Lemma firstn_app_le {A} (n : nat) (l1 l2 : list A) :
+  n <= length l1 -> firstn n (l1 ++ l2) = firstn n l1.
+Proof.
+  intro H. rewrite firstn_app. replace (n - length l1) with 0 by lia.
+  cbn [firstn]. apply app_nil_r.
+Qed.
+
+Lemma skipn_app_le {A} (n : nat) (l1 l2 : list A) :
+  n <= length l1 -> skipn n (l1 ++ l2) = skipn n l1 ++ l2.
+Proof.
+  intro H. rewrite skipn_app. replace (n - length l1) with 0 by lia. reflexivity.
+Qed.
+
+(* boundary condition: at every piece start inside x, the following text y does not
+   change the decision of the lexer *)
+Definition stable_boundary (x y : str) : Prop :=
+  forall qs rest, reaches x qs rest -> rest <> [] -> best (rest ++ y) = best rest.
+
+Lemma reaches_app (x y : str) (qs : list token) (rest : str) :
+  stable_boundary x y -> reaches x qs rest -> reaches (x ++ y) qs (rest ++ y).
+Proof.
+  intros Hs H. induction H as [|ps a r k n H IH B].
+  - apply reaches_nil.
+  - pose proof (best_le _ _ _ B) as L.
+    assert (B' : best (a :: r ++ y) = Some (k, S n)).
+    { change (best ((a :: r) ++ y) = Some (k, S n)).
+      rewrite (Hs ps (a :: r) H); [exact B | discriminate]. }
+    rewrite <- (firstn_app_le (S n) (a :: r) y L).
+    rewrite <- (skipn_app_le (S n) (a :: r) y L).
+    exact (reaches_step (x ++ y) ps a (r ++ y) k n IH B').
+Qed.
+
+Theorem lex_all_app_boundary : forall x y ps,
+  lex_all x = LexOk ps -> stable_boundary x y ->
+  lex_all (x ++ y) = match lex_all y with
+                     | LexOk qs => LexOk (ps ++ qs)
+                     | LexErr p => LexErr (length x + p)
+                     end.
+Proof.
+  intros x y ps Hx Hs.
+  pose proof (reaches_app x y ps [] Hs (lex_all_reaches x ps Hx)) as R. cbn [app] in R.
+  rewrite (reaches_lex_all _ _ _ R). rewrite app_length.
+  replace (length x + length y - length y) with (length x) by lia. reflexivity.
+Qed.
+
+(* the special case of one piece: checkable by a single evaluation of best *)
+Lemma lex_all_first_piece (u v : str) (k : tk) :
+  u <> [] -> best (u ++ v) = Some (k, length u) ->
+  lex_all (u ++ v) = match lex_all v with
+                     | LexOk qs => LexOk ((k, u) :: qs)
+                     | LexErr p => LexErr (length u + p)
+                     end.
+Proof.
+  intros Hu B. destruct u as [|a r]; [contradiction|].
+  change ((a :: r) ++ v) with (a :: r ++ v) in *. cbn [length] in B.
+  rewrite lex_all_step, B. cbv beta iota.
+  change (a :: r ++ v) with ((a :: r) ++ v).
+  change (S (length r)) with (length (a :: r)).
+  rewrite (skipn_app_le (length (a :: r)) (a :: r) v (le_n _)), skipn_all.
+  rewrite (firstn_app_le (length (a :: r)) (a :: r) v (le_n _)), firstn_all.
+  reflexivity.
+Qed.
+
+Definition lex_cons (k : tk) (u : str) (res : lexres) : lexres :=
+  match res with
+  | LexOk ts => LexOk (if skipped k then ts else (k, u) :: ts)
+  | LexErr p => LexErr (length u + p)
+  end.
+
+Lemma lex_first_piece (u v : str) (k : tk) :
+  u <> [] -> best (u ++ v) = Some (k, length u) -> lex (u ++ v) = lex_cons k u (lex v).
+Proof.
+  intros Hu B. unfold lex. rewrite (lex_all_first_piece u v k Hu B).
+  destruct (lex_all v) as [qs|p]; cbn [lex_cons]; [|reflexivity].
+  unfold visible. cbn [filter fst]. destruct (skipped k); reflexivity.
+Qed.
+
+Lemma lex_cons_sim (k : tk) (u : str) (a b : lexres) :
+  lex_sim a b -> lex_sim (lex_cons k u a) (lex_cons k u b).
+Proof.
+  destruct a, b; cbn [lex_sim lex_cons]; intro H; try contradiction; try exact I.
+  subst. reflexivity.
+Qed.
+
+(* one stable piece: the same piece is cut whatever follows, so layout inserted after
+   it is invisible *)
+Lemma lex_insert_ws_after_piece (u rest ws : str) (k : tk) :
+  u <> [] ->
+  best (u ++ rest) = Some (k, length u) ->
+  best (u ++ ws ++ rest) = Some (k, length u) ->
+  forallb is_ws ws = true ->
+  lex_sim (lex (u ++ ws ++ rest)) (lex (u ++ rest)).
+Proof.
+  intros Hu B1 B2 Hw.
+  rewrite (lex_first_piece u rest k Hu B1), (lex_first_piece u (ws ++ rest) k Hu B2).
+  apply lex_cons_sim. apply lex_leading_ws_sim. exact Hw.
+Qed.
+
+Lemma ws_ident_delim (ws rest : str) :
+  ws <> [] -> forallb is_ws ws = true -> ident_delim (ws ++ rest) = true.
+Proof.
+  intros Hne Hw. destruct ws as [|c ws']; [contradiction|].
+  cbn [forallb] in Hw. apply andb_true_iff in Hw. destruct Hw as [Hc _].
+  cbn [app ident_delim]. unfold is_ws in Hc.
+  assert (H1 : is_ident_char c = false) by char_side.
+  assert (H2 : is_unq_char c = false) by char_side.
+  assert (H3 : (c =? 92)%N = false) by char_side.
+  rewrite H1, H2, H3. reflexivity.
+Qed.
+
+Theorem lex_insert_ws_after_ident : forall name rest ws,
+  best (name ++ rest) = Some (TIdent, length name) ->
+  ws <> [] -> forallb is_ws ws = true ->
+  lex_sim (lex (name ++ ws ++ rest)) (lex (name ++ rest)).
+Proof.
+  intros name rest ws B Hne Hw.
+  destruct (best_ident_shape _ _ B) as (a & r & F & Ha & Hr).
+  rewrite (firstn_app_le (length name) name rest (le_n _)), firstn_all in F. subst name.
+  apply (lex_insert_ws_after_piece (a :: r) rest ws TIdent); [discriminate | exact B | | exact Hw].
+  apply best_ident_delim; [exact Ha | exact Hr | apply ws_ident_delim; assumption].
+Qed.
+
+Example lex_insert_ws_after_ident_ex :
+  best (s"foo" ++ s"(a)") = Some (TIdent, 3) /\
+  lex (s"foo" ++ [sp; nl; tab] ++ s"(a)") = lex (s"foo" ++ s"(a)").
+Proof. split; vm_compute; reflexivity. Qed.
+
+(* without the piece hypothesis the statement is false: the identifier would be cut in two *)
+Example lex_insert_ws_needs_boundary :
+  lex (s"foo" ++ [sp] ++ s"bar") <> lex (s"foo" ++ s"bar").
+Proof. vm_compute. discriminate. Qed.
+
+Lemma best_lpar_any (r : str) : best (lpar :: r) = Some (TLParen, 1).
+Proof. rewrite best_results. kill_rules. rewrite m_char_eq. reflexivity. Qed.
+
+Lemma best_rpar_any (r : str) : best (rpar :: r) = Some (TRParen, 1).
+Proof. rewrite best_results. kill_rules. rewrite m_char_eq. reflexivity. Qed.
+
+Theorem lex_insert_ws_after_paren : forall c rest ws,
+  c = lpar \/ c = rpar -> forallb is_ws ws = true ->
+  lex_sim (lex ([c] ++ ws ++ rest)) (lex ([c] ++ rest)).
+Proof.
+  intros c rest ws [-> | ->] Hw.
+  - apply (lex_insert_ws_after_piece [lpar] rest ws TLParen);
+      [discriminate | apply best_lpar_any | apply best_lpar_any | exact Hw].
+  - apply (lex_insert_ws_after_piece [rpar] rest ws TRParen);
+      [discriminate | apply best_rpar_any | apply best_rpar_any | exact Hw].
+Qed.
+
+Example lex_insert_ws_after_paren_ex :
+  lex ([lpar] ++ [sp; nl] ++ s"a)") = LexOk [(TLParen, [lpar]); (TIdent, s"a"); (TRParen, [rpar])].
+Proof. vm_compute. reflexivity. Qed.
+
+(* a piece starting with a double quote can only be a quoted argument *)
+Lemma best_dq (r : str) :
+  best (dq :: r) = match quoted_body r with Some m => Some (TQuoted, S m) | None => None end.
+Proof.
+  destruct (quoted_body r) as [m|] eqn:Q; [|apply best_unterminated_quote; exact Q].
+  rewrite best_results. kill_rules.
+  assert (E : m_quoted (dq :: r) = Some (S m)).
+  { cbn [m_quoted]. change (dq =? 34)%N with true. cbv iota. rewrite Q. reflexivity. }
+  rewrite E. reflexivity.
+Qed.
+
+(* the closing quote is found locally *)
+Lemma quoted_body_app (x : str) : forall n y y',
+  quoted_body (x ++ y) = Some n -> n <= length x -> quoted_body (x ++ y') = Some n.
+Proof.
+  induction x as [| a | a b r IHr IHb] using str_ind2; intros n y y' H L.
+  - cbn [app] in H. destruct y as [|c y0]; [discriminate|].
+    apply quoted_body_le in H. cbn [length] in L. lia.
+  - cbn [app] in *. rewrite quoted_body_cons in *. destruct (a =? 34)%N; [exact H|].
+    destruct (a =? 92)%N.
+    + destruct y as [|c y0]; [discriminate|]. destruct (esc_ok c); [|discriminate].
+      destruct (quoted_body y0) as [m|]; cbn [option_map] in H; [|discriminate].
+      inversion H. subst n. cbn [length] in L. lia.
+    + destruct (quoted_body y) as [m|] eqn:Q; cbn [option_map] in H; [|discriminate].
+      inversion H. subst n. apply quoted_body_le in Q. cbn [length] in L. lia.
+  - change ((a :: b :: r) ++ y) with (a :: (b :: r) ++ y) in H.
+    change ((a :: b :: r) ++ y') with (a :: (b :: r) ++ y').
+    rewrite quoted_body_cons in *. destruct (a =? 34)%N; [exact H|].
+    destruct (a =? 92)%N.
+    + cbn [app] in *. destruct (esc_ok b); [|discriminate].
+      destruct (quoted_body (r ++ y)) as [m|] eqn:Q; cbn [option_map] in H; [|discriminate].
+      inversion H. subst n. cbn [length] in L.
+      rewrite (IHr m y y' Q) by lia. reflexivity.
+    + destruct (quoted_body ((b :: r) ++ y)) as [m|] eqn:Q; cbn [option_map] in H; [|discriminate].
+      inversion H. subst n. cbn [length] in L.
+      rewrite (IHb m y y' Q) by (cbn [length]; lia). reflexivity.
+Qed.
+
+Theorem lex_insert_ws_after_quoted : forall q rest ws,
+  best (q ++ rest) = Some (TQuoted, length q) ->
+  forallb is_ws ws = true ->
+  lex_sim (lex (q ++ ws ++ rest)) (lex (q ++ rest)).
+Proof.
+  intros q rest ws B Hw.
+  destruct (quoted_piece_shape _ _ B) as ([r E] & L2 & _).
+  destruct q as [|c body]; [cbn [length] in L2; lia|].
+  cbn [app] in E. inversion E. subst c.
+  apply (lex_insert_ws_after_piece (dq :: body) rest ws TQuoted); [discriminate | exact B | | exact Hw].
+  cbn [app] in *. rewrite best_dq in *.
+  destruct (quoted_body (body ++ rest)) as [m|] eqn:Q; [|discriminate].
+  inversion B as [Hm]. cbn [length] in Hm. 
+  rewrite (quoted_body_app body m rest (ws ++ rest) Q) by lia. subst m. reflexivity.
+Qed.
+
+Example lex_insert_ws_after_quoted_ex :
+  best (s"""a\""b""" ++ s"x)") = Some (TQuoted, 6) /\
+  lex (s"""a\""b""" ++ [sp; nl] ++ s"x)") = lex (s"""a\""b""" ++ s"x)").
+Proof. split; vm_compute; reflexivity. Qed.
+
+(* the same facts for the lexer standing anywhere inside an input *)
+Corollary lex_reaches_sim (x x' : str) (ps : list token) (rest rest' : str) :
+  reaches x ps rest -> reaches x' ps rest' ->
+  lex_sim (lex rest) (lex rest') -> lex_sim (lex x) (lex x').
+Proof.
+  intros R R' H. unfold lex in *.
+  rewrite (reaches_lex_all _ _ _ R), (reaches_lex_all _ _ _ R').
+  destruct (lex_all rest) as [qs|p], (lex_all rest') as [qs'|p']; cbn [lex_sim] in *;
+    try contradiction; try exact I.
+  unfold visible in *. rewrite !filter_app. f_equal. exact H.
+Qed.
